@@ -1583,7 +1583,7 @@ func tyClass(v Val) string {
 		if strings.HasPrefix(t.Name, "type(") {
 			inner := strings.TrimSuffix(strings.TrimPrefix(t.Name, "type("), ")")
 			g := &GenT{Kind: inner}
-			if c := g.irClass(); c != "ptr" || inner == "string" || inner == "any" {
+			if c := g.irClass(); c != "ptr" {
 				return c
 			}
 			return "agg"
